@@ -124,13 +124,58 @@ impl WTy {
     }
 }
 
+/// JSON has no infinities or NaN (serde_json writes `null`): non-finite parameters are
+/// written as the strings "inf", "-inf", "nan", so that replay files rebuild the same value.
+mod floats_lossless {
+    use serde::{Deserialize, Deserializer, Serialize, Serializer};
+    #[derive(Serialize, Deserialize)]
+    #[serde(untagged)]
+    enum F {
+        Num(f64),
+        Txt(String),
+        Null(()),
+    }
+    pub fn serialize<S: Serializer>(v: &[f64], s: S) -> Result<S::Ok, S::Error> {
+        let w: Vec<F> = v
+            .iter()
+            .map(|x| {
+                if x.is_finite() {
+                    F::Num(*x)
+                } else if x.is_nan() {
+                    F::Txt("nan".into())
+                } else if *x > 0.0 {
+                    F::Txt("inf".into())
+                } else {
+                    F::Txt("-inf".into())
+                }
+            })
+            .collect();
+        w.serialize(s)
+    }
+    pub fn deserialize<'de, D: Deserializer<'de>>(d: D) -> Result<Vec<f64>, D::Error> {
+        let w: Vec<F> = Vec::deserialize(d)?;
+        w.into_iter()
+            .map(|f| match f {
+                F::Num(x) => Ok(x),
+                F::Txt(t) => match t.as_str() {
+                    "inf" => Ok(f64::INFINITY),
+                    "-inf" => Ok(f64::NEG_INFINITY),
+                    "nan" => Ok(f64::NAN),
+                    o => Err(serde::de::Error::custom(format!("bad float {o}"))),
+                },
+                F::Null(()) => Err(serde::de::Error::custom("null float parameter (written by an older harness for a non-finite value)")),
+            })
+            .collect()
+    }
+}
+
 #[derive(Clone, Debug, PartialEq, Serialize, Deserialize)]
 pub struct DistSpec {
     pub family: Family,
     pub scalar: Scalar,
     /// float parameters, in constructor order (stored as f64; f32 specs hold values
     /// that are exactly representable in f32)
-    #[serde(default)]
+    #[serde(default, with = "floats_lossless")]
     pub p: Vec<f64>,
     /// integer parameters / integer weights
     #[serde(default)]
